@@ -68,6 +68,9 @@ def run(rep):
         if k % 7 == 0:
             cases.append(from_model(tc, 64, "bytes", coding=["gzip", "deflate", "br", "zstd"][k % 4]))
     extra = directed(rnd, quick)
+    # every second case delivers one chunk per wake-up (Pending between chunks) instead of all chunks in one poll
+    for k, c in enumerate(cases + extra):
+        c["pend"] = (k % 2 == 1)
     rep.cov["scripts_generated"] = len(res.cases)
     rep.cov["distinct_nontrivial"] = len({json.dumps(c, sort_keys=True) for c in cases + extra})
     rep.cov["exhaustive"] = True
